@@ -904,6 +904,8 @@ class CallsMixin:
         normal = [o for o in outs if o.kind in ("fall", "return")]
         for o in outs:
             if o.kind == "raise":
+                if o.st is st:
+                    o.st = st.copy()        # st is overwritten with the normal path below
                 o.st.cur = saved
                 self.side.append(o)
         if len(normal) != 1:
@@ -1082,6 +1084,10 @@ class CallsMixin:
             normal = [o for o in outs if o.kind in ("return", "fall")]
             for o in outs:
                 if o.kind == "raise":
+                    if o.st is st:
+                        # the caller's state object is about to be overwritten with the normal
+                        # path: the exceptional path keeps its own copy
+                        o.st = st.copy()
                     o.st.cur = saved
                     self.side.append(o)
             if len(normal) == 0:
